@@ -38,7 +38,7 @@ def classify(pid, d):
 
 CLASSIFIERS = {}
 
-ALL_EXTRACTORS = ["Basic", "Message", "Conversion", "Session", "Service", "SigGrammar", "Value", "Reader", "Encoding", "GenReaders", "Endpoint", "Stream", "Client", "Queues", "Auth", "Calls", "Signals"]
+ALL_EXTRACTORS = ["Basic", "Message", "Conversion", "Session", "Service", "SigGrammar", "Value", "Reader", "Encoding", "GenReaders", "Endpoint", "Stream", "Client", "Queues", "Auth", "Calls", "Signals", "Property"]
 
 
 def lean_string_list(path, name):
@@ -306,5 +306,24 @@ PROPS = {
             "user ids (rand.Int) do not collide; queues are within capacity (100 events per subscriber)",
         ],
         "timeout": {"quick": 900, "thorough": 3000},
+    },
+    "C14": {
+        "level": "proof",
+        "extract": ["Property"],
+        "rule": "two real objects on a real server — the generated Bomb stub (delay: int32, validator) and a hand-written "
+                "object behind the generic object dispatcher with an int32, a string and a float property and its own "
+                "change callback — driven through a session: setProperty by name / by id / with a boolean as name / unknown "
+                "names and ids, values of the declared type and of four other types, values the validator refuses; "
+                "property reads; service-side updates (accepted, refused, unknown id); one subscriber per property; "
+                "every answer, every value read back (signature and data) and the per-property event sequences are "
+                "compared with the register machine; then 60 (thorough 600) concurrent histories of 2-3 threads x 2-3 "
+                "operations (reads, client writes, service writes; unique values) recorded with invocation/response "
+                "stamps and decided by the linearizability acceptor",
+        "assumptions": [
+            "a read and a save are atomic steps (each is one critical section of propertiesMutex, tied by the regenerated flows)",
+            "service-side updates go through the generated Update<Prop> helper, which passes the declared signature",
+            "the linearizability acceptor of the driver is a brute-force search over short histories, not a proved decision procedure",
+        ],
+        "timeout": {"quick": 600, "thorough": 3000},
     },
 }
